@@ -1267,9 +1267,15 @@ theorem handleData_pres (e : Engine) (bs : Bytes) : Pres e (e.handleData bs).1 :
     · simp only []
       have h1 : Pres e { e with dec := (decodeBytes { version := e.cfg.version, maxSize := e.inboundMax } e.dec bs).dec } :=
         Pres.of_core_eq rfl
+      have h2 := h1.trans (handlePackets_pres (decodeBytes { version := e.cfg.version, maxSize := e.inboundMax } e.dec bs).packets { e with dec := (decodeBytes { version := e.cfg.version, maxSize := e.inboundMax } e.dec bs).dec })
+      generalize ({ e with dec := (decodeBytes { version := e.cfg.version, maxSize := e.inboundMax } e.dec bs).dec } : Engine).handlePackets (decodeBytes { version := e.cfg.version, maxSize := e.inboundMax } e.dec bs).packets = x at h2 ⊢
+      obtain ⟨e2, r2⟩ := x
+      simp only [] at h2 ⊢
       split
-      · exact h1.halt
-      · exact h1.trans (handlePackets_pres _ _)
+      · exact h2
+      · split
+        · exact h2.halt
+        · exact h2
 
 /-! ### service -/
 
@@ -1521,8 +1527,14 @@ theorem serviceCore_pres (e : Engine) (cap prefill : Nat) : Pres e (e.serviceCor
     · split
       · exact Pres.refl _
       · exact serviceQueue_pres _ _ _ _
-  · have ha := serviceKeepAlive_pres e
-    generalize e.serviceKeepAlive = x at ha ⊢
+  · have h0 := processAckTimeouts_pres (e.timeouts.length + 1) e
+    generalize Engine.processAckTimeouts (e.timeouts.length + 1) e = x0 at h0 ⊢
+    obtain ⟨e0, r0⟩ := x0
+    simp only [] at h0 ⊢
+    split
+    · exact h0
+    have ha := h0.trans (serviceKeepAlive_pres e0)
+    generalize e0.serviceKeepAlive = x at ha ⊢
     obtain ⟨ea, ra⟩ := x
     simp only [] at ha ⊢
     split
